@@ -418,6 +418,48 @@ def roundtrip(S, kind, mechanism, savepoint):
             S.check_concrete(bool(torch.equal(sd_o[kname], sd_r[kname])), "state_dict[%s] bit-identical" % kname)
 
 
+def deepcopy_live(S, kind):
+    """deepcopy of a model that has just predicted in evaluation mode WITH gradients enabled (its caches hold non-leaf tensors):
+       the copy must be made and predict identically"""
+    n, m_, d = 2, 1, 1
+    sc = 0.4 if kind == "kiss_real" else 0.8
+    x = S.randn(n, d, scale=sc); S.sym_tensor(x, "x")
+    xs = S.randn(m_, d, scale=sc); S.sym_tensor(xs, "z")
+    y = S.randn(n); S.sym_tensor(y, "y")
+    Z = S.randn(2, d, scale=0.8)
+    with S.mode(), gpytorch.settings.use_toeplitz(False):
+        lik = _lik(0)
+        if kind == "kiss_real":
+            class KM(gpytorch.models.ExactGP):
+                def __init__(self_):
+                    super().__init__(x, y, lik)
+                    self_.mean_module = gpytorch.means.ConstantMean()
+                    self_.covar_module = K.ScaleKernel(K.GridInterpolationKernel(K.RBFKernel(), grid_size=6, num_dims=1, grid_bounds=[(-2.0, 2.0)]))
+
+                def forward(self_, xx):
+                    return gpytorch.distributions.MultivariateNormal(self_.mean_module(xx), self_.covar_module(xx))
+            orig = KM()
+        elif kind == "sgpr":
+            orig = SGPRModel(x, y, lik, Z)
+        else:
+            orig = ExactModel(x, y, lik, 0)
+        _symbolize(S, orig, "o_")  # parameters keep requires_grad=True
+        orig.eval(); lik.eval()
+        if kind == "kiss_real":
+            # evaluating the kernel in evaluation mode fills the grid-covariance cache (non-leaf tensors: gradients are enabled)
+            want_k = as_sym_arr(SH.get(dense(orig.covar_module(xs, x)))).copy()
+            rest = S.must_not_raise("deepcopy of an evaluated %s model (gradients enabled)" % kind, lambda: copy.deepcopy(orig), any_origin=True)
+            S.prove_eq(dense(rest.covar_module(xs, x)), want_k, "%s: deep copy has the same prior covariance" % kind)
+            S.prove_eq(dense(orig.covar_module(xs, x)), want_k, "%s: the original still evaluates the same" % kind)
+            return
+        want = orig(xs)
+        wm = as_sym_arr(SH.get(want.mean)).copy()
+        rest = S.must_not_raise("deepcopy of an evaluated %s model (gradients enabled)" % kind, lambda: copy.deepcopy(orig), any_origin=True)
+        got = rest(xs)
+        S.prove_eq(got.mean, wm, "%s: deep copy predicts the same mean" % kind)
+        S.prove_eq(got.variance, as_sym_arr(SH.get(want.variance)), "%s: deep copy predicts the same variance" % kind)
+
+
 def model_list(S, mechanism):
     xs = S.randn(1, 1, scale=0.8); S.sym_tensor(xs, "z")
     with S.mode():
@@ -467,6 +509,8 @@ def scenarios(tier, seed):
             add("roundtrip", kind=k, mechanism=mth, savepoint=sp)
         add("model_list", mechanism="state_dict")
         add("model_list", mechanism="pickle")
+        for kind in ("kiss_real", "exact"):
+            add("deepcopy_live", kind=kind)
     else:
         for k in ("exact", "sgpr", "var", "kiss", "rff", "hadamard", "var2"):
             for mth in mechs:
@@ -474,4 +518,6 @@ def scenarios(tier, seed):
                     add("roundtrip", kind=k, mechanism=mth, savepoint=sp)
         for mth in ("state_dict", "pickle", "deepcopy"):
             add("model_list", mechanism=mth)
+        for kind in ("kiss_real", "sgpr", "exact"):
+            add("deepcopy_live", kind=kind)
     return out
